@@ -17,6 +17,8 @@ class ProgGen:
        'dead-after-jump'  statements after break/continue/return in the same suite
        'aug'         augmented assignment
        'boolop-in-expr'  an and/or as the right operand of + or < whose left operand calls the oracle
+       'chain'       chained comparisons whose operands call the oracle (the middle one is evaluated once, the
+                     last one only when the first link holds)
     """
 
     def __init__(self, rng, features):
@@ -30,8 +32,18 @@ class ProgGen:
         self.k += 1
         return "ext(%d)" % self.k
 
+    def chain(self):
+        n = self.rng.choice([3, 3, 4])
+        ops = [self.rng.choice(["<", "<=", "==", "!=", ">"]) for _ in range(n - 1)]
+        out = self.ext()
+        for o in ops:
+            out += " %s %s" % (o, self.rng.choice([self.ext(), self.ext(), self.rng.choice(self.vars)]))
+        return out
+
     def value(self):
         r = self.rng.random()
+        if "chain" in self.f and r < 0.06:
+            return self.chain()
         if r < 0.5:
             return self.ext()
         if r < 0.7:
@@ -67,6 +79,8 @@ class ProgGen:
             # a literal as the test of an `if` (never of a loop: test() asks for one that consults the oracle)
             return self.rng.choice(["True", "False", "0", "1", "None"])
         r = self.rng.random()
+        if "chain" in self.f and r < 0.06:
+            return self.chain()
         if r < 0.3:
             return "%s == 1" % self.ext()
         if r < 0.5:
@@ -156,7 +170,7 @@ class ProgGen:
         return "\n".join(["def f(a, b):"] + body) + "\n"
 
 
-CLEAN = {"boolop", "not", "attr", "for", "while-else", "for-else", "aug", "const-test"}
+CLEAN = {"boolop", "not", "attr", "for", "while-else", "for-else", "aug", "const-test", "chain"}
 ALL = CLEAN | {"nested-boolop", "for-live", "dead-after-jump", "boolop-in-expr"}
 
 
